@@ -445,7 +445,15 @@ func c18fRunScript(ros bool, steps []string) (groups [][]string, events []c18fEv
 	d := &c18fDrv{r: r, w: w, loop: c18fGo{state: "run"}, shut: c18fGo{state: "none"}}
 	startCtx := context.WithValue(context.Background(), c18fParentKey{}, "start")
 	shutCtx := context.WithValue(context.Background(), c18fParentKey{}, "shutdown")
-	_ = w.Start(startCtx)
+	if len(steps)%3 == 0 {
+		// a start-up context, cancelled as soon as Start has returned
+		var cancelStart context.CancelFunc
+		startCtx, cancelStart = context.WithCancel(startCtx)
+		_ = w.Start(startCtx)
+		cancelStart()
+	} else {
+		_ = w.Start(startCtx)
+	}
 	d.settle()
 	for _, st := range steps {
 		d.newGroup()
